@@ -219,6 +219,11 @@ type RaceJudge interface {
 	RaceCounts(c interface{}, o *Outcome) bool
 }
 
+// RaceFilter lets a property leave single reports out (by the text of the report).
+type RaceFilter interface {
+	RaceRelevant(text string) bool
+}
+
 // runOne executes one case with panic containment for the calling goroutine.
 func runOne(t *testing.T, p Property, ctx *Ctx, c interface{}, rw *raceWatch) (o Outcome) {
 	func() {
@@ -244,6 +249,17 @@ func runOne(t *testing.T, p Property, ctx *Ctx, c interface{}, rw *raceWatch) (o
 		counts := true
 		if j, ok := p.(RaceJudge); ok {
 			counts = j.RaceCounts(c, &o)
+		}
+		if f, ok := p.(RaceFilter); ok {
+			var keep []raceReport
+			for _, r := range reps {
+				if f.RaceRelevant(r.Text) {
+					keep = append(keep, r)
+				} else {
+					o.Add("race_reports_filtered", 1)
+				}
+			}
+			reps = keep
 		}
 		if v := raceViolation(reps); v != nil {
 			if counts {
